@@ -152,7 +152,14 @@ def run():
                 "conversions, the repair of the field with hset, conversions again; a successful conversion, a write, then a "
                 "method call with the record as receiver / as argument; each step must give what a fresh record "
                 "with the same contents gives); zvtwin / nestouter / nestinner are registered under two names and travel nested "
-                "through pointer and interface fields: a record that went in under the first name must come back under it",
+                "through pointer and interface fields: a record that went in under the first name must come back under it; "
+                "further routes: a method result of interface type (AnyLeaf), a parameter of interface type (TakeAny), a method "
+                "handing back a pointer field of its argument (PairA, nil when unset), a record passed for a parameter of ANOTHER "
+                "struct type (must be refused), removal of a field before a second togo, a method call on the record below a "
+                "failed conversion and on a record that came back from Go; values: unsigned literals, integers beyond 2^53 into "
+                "float fields, floats beyond float32, values no field can hold (regexp, type value, channel), durations, named "
+                "scalar types, int16/uint32/uint64, an unexported field; the identity of every record in a returned value is "
+                "recorded and compared with the sharing the Go value has (one Go object, one record)",
     }
     return flow.finish(out, "translation_validation", cov, [
         "struct family of harness/cmd/zv/gointerop_types.go and the demo structs of zygo/demo_go_structs.go; the declarations "
@@ -160,16 +167,20 @@ def run():
         "expected Go values are computed by TLC from the record graph alone (Fill); the harness only dumps what reflection sees "
         "(one value per declared field, map keys sorted, pointer identities renamed in first-visit order; nil and empty "
         "slices / maps / byte slices are not distinguished)",
-        "judged conversions: int/char into integer kinds, int or float into float64, float into float32, string, bool, raw "
+        "judged conversions: int/char/unsigned literal into integer kinds, int or float into float64 (an integer it cannot hold "
+        "exactly is an error), float into float32 (beyond its range: an error), duration, named string/float types, string, bool, raw "
         "bytes, time, arrays, plain hashes into map[string]string|float64|interface and map[int64]float64, records into struct "
         "values / pointers / interfaces, nil into pointer-like and container fields, absent fields; must fail: an undeclared "
         "key, a value of another family (number / string / bool / bytes / time / array / hash / record of another type), a "
         "fractional float or an out-of-range integer into an integer field",
         "not judged (the statement is silent): nil or a symbol into a basic field, an integral float into an integer field, an "
-        "int into float32, a char into int/int64, unsigned fields (the converter refuses every value: accepted as unsupported "
-        "kind, as is a correct conversion), a record that gives an embedded struct as a whole together with its promoted fields",
-        "on the way back a field is identified by its label (json tag, else Go field name); the type name may be the registered "
-        "name or pkg.Type (which one is C20's question); sharing between the records handed back is not required",
+        "int into float32, a char into int/int64, an unsigned literal into a signed or float field, an int into a duration, "
+        "a record that gives an embedded struct as a whole together with its promoted fields, two keys that name one field, "
+        "two fields that answer to one key, the same record passed twice in one method call (each argument is its own conversion); "
+        "a char field comes back as an integer (Go's rune IS int32; the language's == treats them as equal)",
+        "on the way back a field is identified by its label (json tag, else Go field name); the type name must be the first "
+        "registered name of the Go type (either name only for a type of which a record went in under its second name); one Go "
+        "object must come back as one record (identity pattern of the returned value, acyclic values only)",
         "times come from a palette of three instants bound as globals; floats from a palette exactly representable in float32",
         "the converter ranges over Go maps: graphs with a shared record are converted 40 times from fresh records and every "
         "distinct outcome is judged; graphs that reach themselves are converted in a child process (stack limit 4 MB)",
